@@ -133,7 +133,10 @@ func (t *TCCResourceManager) BranchCommit(ctx context.Context, branchResource rm
 		tccResource, _ = resource.(*TCCResource)
 	}
 
-	businessActionContext := t.getBusinessActionContext(branchResource.Xid, branchResource.BranchId, branchResource.ResourceId, branchResource.ApplicationData)
+	businessActionContext, err := t.parseBusinessActionContext(branchResource.Xid, branchResource.BranchId, branchResource.ResourceId, branchResource.ApplicationData)
+	if err != nil {
+		return branch.BranchStatusPhasetwoCommitFailedUnretryable, err
+	}
 
 	// to set up the fence phase
 	ctx = tm.InitSeataContext(ctx)
@@ -141,7 +144,7 @@ func (t *TCCResourceManager) BranchCommit(ctx context.Context, branchResource rm
 	tm.SetFencePhase(ctx, enum.FencePhaseCommit)
 	tm.SetBusinessActionContext(ctx, businessActionContext)
 
-	_, err := tccResource.TwoPhaseAction.Commit(ctx, businessActionContext)
+	_, err = tccResource.TwoPhaseAction.Commit(ctx, businessActionContext)
 	if err != nil {
 		return branch.BranchStatusPhasetwoCommitFailedRetryable, err
 	}
@@ -149,14 +152,28 @@ func (t *TCCResourceManager) BranchCommit(ctx context.Context, branchResource rm
 }
 
 func (t *TCCResourceManager) getBusinessActionContext(xid string, branchID int64, resourceID string, applicationData []byte) *tm.BusinessActionContext {
+	businessActionContext, err := t.parseBusinessActionContext(xid, branchID, resourceID, applicationData)
+	if err != nil {
+		panic(err.Error())
+	}
+	return businessActionContext
+}
+
+// parseBusinessActionContext rebuilds the action context from the application data the
+// coordinator sends back; data that is not the JSON written at registration is an error.
+func (t *TCCResourceManager) parseBusinessActionContext(xid string, branchID int64, resourceID string, applicationData []byte) (*tm.BusinessActionContext, error) {
 	actionContextMap := make(map[string]interface{}, 2)
 	if len(applicationData) > 0 {
 		var tccContext map[string]interface{}
 		if err := json.Unmarshal(applicationData, &tccContext); err != nil {
-			panic("application data failed to unmarshl as json")
+			return nil, fmt.Errorf("application data failed to unmarshl as json: %w", err)
 		}
-		if v, ok := tccContext[constant.ActionContext]; ok {
-			actionContextMap = v.(map[string]interface{})
+		if v, ok := tccContext[constant.ActionContext]; ok && v != nil {
+			m, isMap := v.(map[string]interface{})
+			if !isMap {
+				return nil, fmt.Errorf("application data carries an action context that is not a json object")
+			}
+			actionContextMap = m
 		}
 	}
 
@@ -165,7 +182,7 @@ func (t *TCCResourceManager) getBusinessActionContext(xid string, branchID int64
 		BranchId:      branchID,
 		ActionName:    resourceID,
 		ActionContext: actionContextMap,
-	}
+	}, nil
 }
 
 // Rollback a branch transaction
@@ -178,7 +195,10 @@ func (t *TCCResourceManager) BranchRollback(ctx context.Context, branchResource 
 		tccResource, _ = resource.(*TCCResource)
 	}
 
-	businessActionContext := t.getBusinessActionContext(branchResource.Xid, branchResource.BranchId, branchResource.ResourceId, branchResource.ApplicationData)
+	businessActionContext, err := t.parseBusinessActionContext(branchResource.Xid, branchResource.BranchId, branchResource.ResourceId, branchResource.ApplicationData)
+	if err != nil {
+		return branch.BranchStatusPhasetwoRollbackFailedUnretryable, err
+	}
 
 	// to set up the fence phase
 	ctx = tm.InitSeataContext(ctx)
@@ -186,7 +206,7 @@ func (t *TCCResourceManager) BranchRollback(ctx context.Context, branchResource 
 	tm.SetFencePhase(ctx, enum.FencePhaseRollback)
 	tm.SetBusinessActionContext(ctx, businessActionContext)
 
-	_, err := tccResource.TwoPhaseAction.Rollback(ctx, businessActionContext)
+	_, err = tccResource.TwoPhaseAction.Rollback(ctx, businessActionContext)
 	if err != nil {
 		return branch.BranchStatusPhasetwoRollbackFailedRetryable, err
 	}
